@@ -308,7 +308,19 @@ fn main() {
     log::set_max_level(log::LevelFilter::Trace);
     let args: Vec<String> = std::env::args().collect();
     let code = match args.get(1).map(|s| s.as_str()) {
-        Some("run") => cmd_run(&args[2..]),
+        Some("run") => {
+            runner::install_death_note();
+            cmd_run(&args[2..])
+        }
+        Some("mkreplay-quiet") => {
+            // mkreplay-quiet <ID> <seed> <index> [thorough]: a replay file that names a run by seed and index
+            let id = args.get(2).cloned().unwrap_or_default();
+            let seed = args.get(3).and_then(|s| s.parse().ok()).unwrap_or(0);
+            let idx = args.get(4).and_then(|s| s.parse().ok()).unwrap_or(0);
+            let thorough = args.get(5).map(|s| s == "thorough").unwrap_or(false);
+            println!("{}", runner::write_seed_replay(&id, seed, idx, thorough, "abort", "the process aborted while executing this run (stack overflow or failed allocation inside the library)"));
+            0
+        }
         Some("replay") => cmd_replay(&args[2..]),
         Some("selftest-determinism") => cmd_determinism(&args[2..]),
         Some("selftest-fidelity") => fidelity::run(),
